@@ -1,3 +1,4 @@
+import Mp.CueSteps
 import Mp.Deps
 import Mp.DepsExact
 import Mp.CueDeps
@@ -10,3 +11,5 @@ import Mp.CueDeps
 #print axioms Mp.blocked_iff
 #print axioms Mp.blocked_first_key_rejected
 #print axioms Mp.unblocked_first_key
+#print axioms Mp.blocked_only_first_key
+#print axioms Mp.first_key_blocked
